@@ -920,7 +920,13 @@ fn big_for<T: Cat + Clone, C: Cat + FromIterator<T>>(ctx: &mut Ctx, name: &str) 
 			let want = val_string(&v, true);
 			match r {
 				Ok((Some(a), p1, Some(b), p2)) if a == want && b == want && p1 == one_len && p2 == 2 * one_len => {},
-				Ok((a, p1, b, p2)) => ctx.oracle_fail("C08", format!("{}: two encodings of {} elements in a row through an input of unknown length: first ok={} consumed {} (encoding is {} bytes), second ok={} consumed {}", name, n, a.is_some(), p1, one_len, b.is_some(), p2 - p1)),
+				Ok((a, p1, b, p2)) => {
+					let msg = format!("{}: two encodings of {} elements in a row through an input of unknown length: first ok={} consumed {} (encoding is {} bytes), second ok={} consumed {}", name, n, a.is_some(), p1, one_len, b.is_some(), p2 - p1);
+					// the round trip (C02), self-delimitation (C14) and input independence (C08) all fail here
+					ctx.oracle_fail("C08", msg.clone());
+					ctx.oracle_fail("C02", msg.clone());
+					ctx.oracle_fail("C14", msg);
+				},
 				Err(_) => ctx.oracle_fail("C03", format!("{}: decoding {} elements from an input of unknown length panicked", name, n)),
 			}
 			#[cfg(feature = "codec-std")]
@@ -934,7 +940,12 @@ fn big_for<T: Cat + Clone, C: Cat + FromIterator<T>>(ctx: &mut Ctx, name: &str) 
 				}));
 				match r {
 					Ok((Some(a), p1, Some(b), p2)) if a == want && b == want && p1 == one_len && p2 == 2 * one_len => {},
-					Ok((a, p1, b, p2)) => ctx.oracle_fail("C08", format!("{}: two encodings of {} elements in a row through IoReader: first ok={} consumed {} (encoding is {} bytes), second ok={} consumed {}", name, n, a.is_some(), p1, one_len, b.is_some(), p2 - p1)),
+					Ok((a, p1, b, p2)) => {
+						let msg = format!("{}: two encodings of {} elements in a row through IoReader: first ok={} consumed {} (encoding is {} bytes), second ok={} consumed {}", name, n, a.is_some(), p1, one_len, b.is_some(), p2 - p1);
+						ctx.oracle_fail("C08", msg.clone());
+						ctx.oracle_fail("C02", msg.clone());
+						ctx.oracle_fail("C14", msg);
+					},
 					Err(_) => ctx.oracle_fail("C03", format!("{}: decoding {} elements from IoReader panicked", name, n)),
 				}
 			}
